@@ -139,6 +139,56 @@ double next_step(Geo& g, Real3 const& pos, Real3 const& dir)
     return geo.find_next_step().distance;
 }
 
+// local positions of every level of the current state
+std::vector<Real3> level_positions(Geo& g, OrangeTrackView const& tv)
+{
+    std::vector<Real3> r;
+    for (auto lev : range(LevelId{tv.level() + 1}))
+    {
+        celeritas::detail::LevelStateAccessor lsa(&g.state->ref(), TrackSlotId{0}, lev);
+        r.push_back(lsa.pos());
+    }
+    return r;
+}
+
+PathT current_path(Geo& g, OrangeTrackView const& tv)
+{
+    PathT p;
+    for (auto lev : range(LevelId{tv.level() + 1}))
+    {
+        celeritas::detail::LevelStateAccessor lsa(&g.state->ref(), TrackSlotId{0}, lev);
+        p.v.push_back(static_cast<int>(lsa.universe().get()));
+        p.v.push_back(static_cast<int>(lsa.vol().get()));
+    }
+    return p;
+}
+
+template<class Rnd>
+double min_next_step(Geo& g, Real3 const& pos, std::vector<Real3> const& dirs, Rnd& rnd, Real3* bestd_out)
+{
+    double best = std::numeric_limits<double>::infinity();
+    Real3 bestd = dirs[0];
+    for (auto const& d : dirs)
+    {
+        double s = next_step(g, pos, d);
+        if (s >= 0 && s < best) { best = s; bestd = d; }
+    }
+    double ang = 0.12;
+    for (int round = 0; round < 6; ++round, ang *= 0.3)
+    {
+        Real3 centre = bestd;
+        for (int k = 0; k < 24; ++k)
+        {
+            Real3 d{centre[0] + ang * rnd(), centre[1] + ang * rnd(), centre[2] + ang * rnd()};
+            d = make_unit_vector(d);
+            double s = next_step(g, pos, d);
+            if (s >= 0 && s < best) { best = s; bestd = d; }
+        }
+    }
+    if (bestd_out) *bestd_out = bestd;
+    return best;
+}
+
 std::vector<Real3> make_dirs()
 {
     std::vector<Real3> d;
@@ -162,6 +212,7 @@ int main()
     std::vector<SPUnit> units;
     auto const dirs = make_dirs();
     std::uint64_t lcg = 12345;
+    std::size_t npoint = 0;
     auto rnd = [&lcg] {
         lcg = lcg * 6364136223846793005ULL + 1442695040888963407ULL;
         return ((lcg >> 11) * (1.0 / 9007199254740992.0)) * 2 - 1;
@@ -296,25 +347,8 @@ int main()
                     }
                 }
                 // min over directions of the distance to the next boundary
-                double best = std::numeric_limits<double>::infinity();
                 Real3 bestd = dirs[0];
-                for (auto const& d : dirs)
-                {
-                    double s = next_step(geo, pos, d);
-                    if (s >= 0 && s < best) { best = s; bestd = d; }
-                }
-                double ang = 0.12;
-                for (int round = 0; round < 6; ++round, ang *= 0.3)
-                {
-                    Real3 centre = bestd;
-                    for (int k = 0; k < 24; ++k)
-                    {
-                        Real3 d{centre[0] + ang * rnd(), centre[1] + ang * rnd(), centre[2] + ang * rnd()};
-                        d = make_unit_vector(d);
-                        double s = next_step(geo, pos, d);
-                        if (s >= 0 && s < best) { best = s; bestd = d; }
-                    }
-                }
+                double best = min_next_step(geo, pos, dirs, rnd, &bestd);
                 // the overload with a search radius (the one Urban MSC calls): radii below, at and above
                 // the safety of every level and of the whole stack
                 std::ostringstream ms;
@@ -362,6 +396,87 @@ int main()
                 os << " " << nbad;
                 for (auto x : badp) os << " " << hex(x);
                 os << ms.str();
+                // ---- points reached by the navigator's own moves --------------------------------------
+                // from pos go half-way to the next boundary along u, once with move_internal(distance) and once
+                // with move_internal(position); the state must be the one of a fresh initialisation there
+                {
+                    Real3 u = dirs[(npoint * 37 + 11) % dirs.size()];
+                    ++npoint;
+                    double dnext = next_step(geo, pos, u);
+                    if (dnext > 0)
+                    {
+                        double step = 0.5 * (dnext < 1e3 ? dnext : 1e3) * (0.2 + 0.8 * std::fabs(rnd()));
+                        Real3 target{pos[0] + step * u[0], pos[1] + step * u[1], pos[2] + step * u[2]};
+                        double s_dist, s_distm, s_pos, s_posm, s_fresh;
+                        std::vector<Real3> lp_dist, lp_pos, lp_fresh;
+                        PathT path_dist, path_pos, path_fresh;
+                        Real3 reached;
+                        {
+                            OrangeTrackView tv(pref, geo.state->ref(), TrackSlotId{0});
+                            tv = GeoTrackInitializer{pos, u};
+                            tv.find_next_step();
+                            tv.move_internal(step);
+                            reached = tv.pos();
+                            s_dist = tv.find_safety(); s_distm = tv.find_safety(1e6);
+                            lp_dist = level_positions(geo, tv); path_dist = current_path(geo, tv);
+                        }
+                        {
+                            OrangeTrackView tv(pref, geo.state->ref(), TrackSlotId{0});
+                            tv = GeoTrackInitializer{pos, u};
+                            tv.move_internal(reached);
+                            s_pos = tv.find_safety(); s_posm = tv.find_safety(1e6);
+                            lp_pos = level_positions(geo, tv); path_pos = current_path(geo, tv);
+                        }
+                        bool fresh_ok;
+                        {
+                            OrangeTrackView tv(pref, geo.state->ref(), TrackSlotId{0});
+                            tv = GeoTrackInitializer{reached, u};
+                            fresh_ok = !(tv.failed() || tv.is_outside() || tv.is_on_boundary());
+                            if (fresh_ok)
+                            {
+                                s_fresh = tv.find_safety();
+                                lp_fresh = level_positions(geo, tv); path_fresh = current_path(geo, tv);
+                            }
+                        }
+                        if (fresh_ok)
+                        {
+                            auto dev = [&](std::vector<Real3> const& a) {
+                                if (a.size() != lp_fresh.size()) return std::numeric_limits<double>::infinity();
+                                double m = 0;
+                                for (std::size_t i = 0; i < a.size(); ++i)
+                                    for (int k = 0; k < 3; ++k) m = std::fmax(m, std::fabs(a[i][k] - lp_fresh[i][k]));
+                                return m;
+                            };
+                            Real3 bd2;
+                            double best2 = min_next_step(geo, reached, dirs, rnd, &bd2);
+                            double rmax = std::fmax(std::fmax(s_dist, s_pos), std::fmax(s_distm, s_posm));
+                            int nbad2 = 0; Real3 badp2{0, 0, 0};
+                            if (rmax > 0 && rmax < 1e300)
+                            {
+                                double rad = rmax * (1 - 1e-6);
+                                for (auto const& d : dirs)
+                                {
+                                    Real3 q{reached[0] + rad * d[0], reached[1] + rad * d[1], reached[2] + rad * d[2]};
+                                    PathT p2;
+                                    bool ok = locate(geo, q, dirs[0], &p2);
+                                    if (!ok || !(p2 == path_fresh)) { if (!nbad2) badp2 = q; ++nbad2; }
+                                }
+                            }
+                            os << " mv 1";
+                            for (auto x : u) os << " " << hex(x);
+                            os << " " << hex(step);
+                            for (auto x : reached) os << " " << hex(x);
+                            os << " " << hex(s_dist) << " " << hex(s_distm) << " " << hex(s_pos) << " " << hex(s_posm)
+                               << " " << hex(s_fresh) << " " << hex(best2) << " " << hex(dev(lp_dist)) << " "
+                               << hex(dev(lp_pos)) << " " << ((path_dist == path_fresh) ? 1 : 0) << " "
+                               << ((path_pos == path_fresh) ? 1 : 0) << " " << nbad2;
+                            for (auto x : badp2) os << " " << hex(x);
+                            os << " " << lp_fresh.size();
+                        }
+                        else os << " mv 0";
+                    }
+                    else os << " mv 0";
+                }
                 std::cout << os.str() << "\n";
             }
             catch (std::exception const& e)
